@@ -161,7 +161,7 @@ Definition bucket_queried (blocks : list (labels * list labels)) (ms : list matc
 Record obs := MkObs { o_series : option (list labels); o_names : list str; o_values : list str }.
 
 Inductive case :=
-| CLabels (stored : list labels) (exts : list labels) (drop : list str) (ms : list matcher) (label : str)
+| CLabels (stored : list labels) (inits : list labels) (exts : list labels) (drop : list str) (ms : list matcher) (label : str)
           (stores : list obs)   (* each TSDB store asked directly: Series label sets sorted+distinct *)
           (proxy : obs)         (* the proxy in front of them *)
 | CBucket7 (blocks : list (labels * list labels)) (drop : list str) (ms : list matcher) (has_name_eq : bool)
@@ -180,6 +180,22 @@ Definition model_proxy (stored : list labels) (exts : list labels) (drop : list 
   MkObs (proxy_series_labels exts drop ms stored)
         (proxy_label_names exts drop ms stored) (proxy_label_values exts drop ms label stored).
 
+(* ---- a TSDB store with a history: built with [init] external labels, reloaded (SetExtLset) with
+   [cur]. Series reads the current labels; which labels LabelNames / LabelValues read is a source
+   fact (Gen/C07.v): the current ones, or not provably so (then the model uses the initial ones) ---- *)
+Definition ext_for_names (h : labels * labels) : labels := if labelnames_reads_current_ext then snd h else fst h.
+Definition ext_for_values (h : labels * labels) : labels := if labelvalues_reads_current_ext then snd h else fst h.
+
+Definition model_store_h (stored : list labels) (drop : list str) (ms : list matcher) (label : str) (h : labels * labels) : obs :=
+  MkObs (option_map lsort_set (tsdb_series_labels (snd h) drop ms stored))
+        (tsdb_label_names (ext_for_names h) drop ms stored) (tsdb_label_values (ext_for_values h) drop ms label stored).
+Definition queried_h (ms : list matcher) (hs : list (labels * labels)) : list (labels * labels) :=
+  filter (fun h => label_sets_match mname mmatch ms [snd h]) hs.
+Definition model_proxy_h (stored : list labels) (hs : list (labels * labels)) (drop : list str) (ms : list matcher) (label : str) : obs :=
+  MkObs (proxy_series_labels (map snd hs) drop ms stored)
+        (merge_slices (map (fun h => tsdb_label_names (ext_for_names h) drop ms stored) (queried_h ms hs)))
+        (merge_slices (map (fun h => tsdb_label_values (ext_for_values h) drop ms label stored) (queried_h ms hs))).
+
 Definition model_bucket (blocks : list (labels * list labels)) (drop : list str) (ms : list matcher) (hne : bool) (label : str) : obs :=
   MkObs (Some (lsort_set (bucket_series_labels blocks drop ms)))
         (bucket_label_names blocks drop ms) (bucket_label_values hne blocks drop ms label).
@@ -191,9 +207,10 @@ Definition model_bucket_proxy (blocks : list (labels * list labels)) (drop : lis
 
 Definition corr_ok (c : case) : bool :=
   match c with
-  | CLabels stored exts drop ms label stores proxy =>
-      list_eqb obs_eqb (map (model_store stored drop ms label) exts) stores
-      && obs_eqb (model_proxy stored exts drop ms label) proxy
+  | CLabels stored inits exts drop ms label stores proxy =>
+      Nat.eqb (length inits) (length exts)
+      && list_eqb obs_eqb (map (model_store_h stored drop ms label) (combine inits exts)) stores
+      && obs_eqb (model_proxy_h stored (combine inits exts) drop ms label) proxy
   | CBucket7 blocks drop ms hne label bstore bproxy =>
       obs_eqb (model_bucket blocks drop ms hne label) bstore
       && obs_eqb (model_bucket_proxy blocks drop ms hne label) bproxy
@@ -211,7 +228,7 @@ Definition covers (label : str) (o : obs) : bool :=
   end.
 Definition pred_ok (c : case) : bool :=
   match c with
-  | CLabels stored exts drop ms label stores proxy => forallb (covers label) stores && covers label proxy
+  | CLabels stored inits exts drop ms label stores proxy => forallb (covers label) stores && covers label proxy
   | CBucket7 blocks drop ms hne label bstore bproxy => covers label bstore && covers label bproxy
   | CNop7 => true
   end.
